@@ -636,7 +636,10 @@ impl SwiftField for Field50InstructingParty {
                 let field = Field50L::parse(value)?;
                 Ok(Field50InstructingParty::L(field))
             }
-            _ => {
+            Some(other) => Err(ParseError::InvalidFormat {
+                message: format!("Option {} is not supported by this field", other),
+            }),
+            None => {
                 // No variant specified, fall back to default parse behavior
                 Self::parse(value)
             }
@@ -722,7 +725,10 @@ impl SwiftField for Field50OrderingCustomerFGH {
                 let field = Field50H::parse(value)?;
                 Ok(Field50OrderingCustomerFGH::H(field))
             }
-            _ => {
+            Some(other) => Err(ParseError::InvalidFormat {
+                message: format!("Option {} is not supported by this field", other),
+            }),
+            None => {
                 // No variant specified, fall back to default parse behavior
                 Self::parse(value)
             }
@@ -815,7 +821,10 @@ impl SwiftField for Field50OrderingCustomerAFK {
                 let field = Field50K::parse(value)?;
                 Ok(Field50OrderingCustomerAFK::K(field))
             }
-            _ => {
+            Some(other) => Err(ParseError::InvalidFormat {
+                message: format!("Option {} is not supported by this field", other),
+            }),
+            None => {
                 // No variant specified, fall back to default parse behavior
                 Self::parse(value)
             }
@@ -906,10 +915,9 @@ impl SwiftField for Field50OrderingCustomerNCF {
                 let field = Field50F::parse(value)?;
                 Ok(Field50OrderingCustomerNCF::F(field))
             }
-            _ => {
-                // Unknown variant, fall back to default parse behavior
-                Self::parse(value)
-            }
+            Some(other) => Err(ParseError::InvalidFormat {
+                message: format!("Option {} is not supported by this field", other),
+            }),
         }
     }
 
@@ -980,7 +988,10 @@ impl SwiftField for Field50Creditor {
                 let field = Field50K::parse(value)?;
                 Ok(Field50Creditor::K(field))
             }
-            _ => {
+            Some(other) => Err(ParseError::InvalidFormat {
+                message: format!("Option {} is not supported by this field", other),
+            }),
+            None => {
                 // No variant specified, fall back to default parse behavior
                 Self::parse(value)
             }
